@@ -12,7 +12,8 @@ from ..common import CheckResult, BASE_ASSUMPTIONS, HarnessError
 from ..findings import Failure
 from ..model import header42
 
-CLASSES = ["clean", "notice", "erroneous", "fatal"]
+CLASSES = ["clean", "notice", "erroneous", "fatal", "mixed", "mixedrev"]
+# mixed: a Notice positioned before an Error in the same file; mixedrev: the Error first
 FUNC = "int\tft_value(int n)\n{\n\treturn (n + 1);\n}\n"
 HBODY = "#ifndef %s\n# define %s\n\nint\tft_value(int n);\n%s\n#endif\n"
 
@@ -26,6 +27,10 @@ def content(cls, fname):
             return hdr + "int\tg_counter;\n\n" + FUNC
         if cls == "erroneous":
             return hdr + FUNC.replace("return (n + 1);", "return (n + 1); ")
+        if cls == "mixed":
+            return hdr + "int\tg_counter;\n\n" + FUNC.replace("return (n + 1);", "return (n + 1); ")
+        if cls == "mixedrev":
+            return hdr + "int\tG_first;\nint\tg_counter;\n\n" + FUNC
         return hdr + "int\tft_value(int n)\n{\n\treturn ((n + 1);\n}\n"
     g = fname.upper().replace(".", "_")
     if cls == "clean":
@@ -34,6 +39,10 @@ def content(cls, fname):
         return hdr + HBODY % (g, g, "extern int\tg_counter;")
     if cls == "erroneous":
         return hdr + (HBODY % (g, g, "")).replace("int\tft_value(int n);", "int\tft_value(int n); ")
+    if cls == "mixed":
+        return hdr + (HBODY % (g, g, "extern int\tg_counter; ")).replace("int\tft_value(int n);\n", "extern int\tg_first;\n")
+    if cls == "mixedrev":
+        return hdr + (HBODY % (g, g, "extern int\tg_counter;")).replace("int\tft_value(int n);", "int\tft_value(int n); ")
     return hdr + (HBODY % (g, g, "")).replace("(int n);", "((int n);")
 
 
